@@ -54,6 +54,27 @@ def run(ctx, w):
     c06.linefeed_rule(ctx, w, S, R, up)
     prims.scroll_primitives(ctx, w, S, "T9")
     ctx.floor("T9", 500, "scroll primitive evaluations")
+    # Vt::text() is the primary buffer's text, handed through unaltered (no cut-off, no post-processing)
+    ctx.rule("T11", "Vt::text() returns the text routine's result for the primary buffer unchanged: nothing between the buffer and the caller filters, cuts or re-trims the lines")
+    api = "vt::Vt::text"
+    if api in w.bodies:
+        chain = [api]
+        for _ in range(3):
+            f = chain[-1]
+            nxt = [cs.callee for cs in E.call_sites(f) if cs.local and (w.facts.fns.get(cs.callee, {}).get("output") or {}).get("s") == "alloc::vec::Vec<alloc::string::String>"]
+            if len(nxt) != 1:
+                break
+            chain.append(nxt[0])
+        for f in chain[:-1]:
+            fb = w.body(f)
+            FT = w.terms(f)
+            rts = [WD.strip_names(FT.local(0, (rb, fb.n_stmts(rb)))) for rb in fb.return_blocks()]
+            nxt = chain[chain.index(f) + 1]
+            okt = bool(rts) and all(t[0] == "call" and t[1] == nxt for t in rts) and len(fb.return_blocks()) == 1
+            ctx.check(okt, "T11", f, "%s does not simply return %s(..): %s" % (f, nxt, [w.tstr(f, t)[:80] for t in rts]), loc=w.fn_loc(f), sample={"fn": f, "returns": [w.tstr(f, t)[:60] for t in rts]})
+        ctx.check(len(chain) >= 3 and S._impl_of(chain[-1]) == S.buffer_ty, "T11", "chain", "Vt::text() does not reach the buffer's text routine through plain delegation (%s)" % chain, loc=w.fn_loc(api))
+    else:
+        ctx.missing_anchor("T11", api)
     # "however much has scrolled into an unlimited scrollback": no limit means nothing is ever removed
     if T.ok:
         shared.gc_verdict(ctx, w, S, T, "T10")
@@ -158,6 +179,8 @@ def continuity_rules(ctx, w, S, R):
     E = w.E
     from rules import c06
     up, down = c06.scroll_prims(w, S)
+    from rules import prims as _pr
+    ctx = shared.Deferred(ctx, {"W8"}, _pr.scroll_ok(w, S))       # the scroll-primitive specification (T9) decides the marks semantically
     ctx.rule("W8", "scroll-up clears the wrap mark of range.end-1 exactly when the range stops above the last row, and of range.start-1 only for inner ranges; scroll-down clears range.end-1 always and range.start-1 when it exists")
     for prim, kind in ((up, "up"), (down, "down")):
         b = w.body(prim)
